@@ -1,5 +1,6 @@
 """Monitors evaluated on every node of the E3 prompt-tree exploration, per property."""
 import functools
+import re
 import hv
 from hv import world, refeval, monitors, e3
 from habutax.forms import available_forms
@@ -133,8 +134,30 @@ def monitor(pid, year, base, assign, r, asked):
             if rr.canon() != c0:
                 viols.append(('outcome-differs', f'request order reversed: {_diff(r, rr)}', dict(variant='request-reversed')))
         if not assign and r.exc is None:
+            # histories inside one process: (a) the same base return of another tax year is solved first; (b) a solver of
+            # another year has used the very same InputStore before.  Neither may leave anything behind.
+            for other in sorted(y for y in available_forms if y != year):
+                try:
+                    ob = e3.base_by_name(base.name, other)
+                except KeyError:
+                    continue
+                e3.run_return(other, ob, {})
+                ra, _ = e3.run_return(year, base, {})
+                cnt['solves'] += 2
+                if ra.canon() != c0:
+                    viols.append(('process-history-dependent', f'after a {other} solve of {base.name} in the same process: {_diff(r, ra)[:300]}', dict(variant=f'after-year-{other}')))
+                st = world.make_store(r.final_inputs)
+                world.run_solve(available_forms[other], base.requested, None, answer=None, store=st, instrument=False)
+                rb = world.run_solve(fl, base.requested, None, answer=None, store=st)
+                cnt['solves'] += 2
+                if rb.canon() != c0:
+                    viols.append(('store-history-dependent', f'the input store was used by a {other} solver before: {_diff(r, rb)[:300]}', dict(variant=f'store-after-year-{other}')))
             add(_cli_layouts(year, base, r))
             cnt['solves'] += 5
+            errs, k = _cli_argv(year, base, r)
+            add(errs)
+            cnt['solves'] += k
+            cnt['argv_command_lines'] = cnt.get('argv_command_lines', 0) + k
     elif pid == 'C06':
         add(monitors.c06(r))
     elif pid == 'C10':
@@ -142,6 +165,9 @@ def monitor(pid, year, base, assign, r, asked):
             cls, msg = r.exc
             if cls in ('RecursionError', 'AssertionError', 'AttributeError', 'NameError', 'KeyError', 'UnboundLocalError', 'IndexError'):
                 viols.append((f'solve-raised-{cls}', f'solve() raised {cls}: {msg[:120]}', None))
+            elif cls == 'TypeError' and SIGNATURE_RE.search(msg):
+                # a helper called with arguments it does not take: the reference does not resolve
+                viols.append(('solve-raised-TypeError-signature', f'solve() raised TypeError: {msg[:160]}', None))
             elif cls == 'NotImplementedError':
                 from hv import e4
                 if not any(msg == f'Form {a} is not supported.' for a in e4.ABSENT_FORMS):
@@ -189,6 +215,27 @@ def monitor(pid, year, base, assign, r, asked):
                 viols.append(('unread-input-required', f'dropping the {len(r.final_inputs) - len(read)} never-read inputs changes the outcome: {_diff(r, r2)}', None))
             if asked2 and r.verdict:
                 viols.append(('second-run-asks', f'a run on the inputs that were read asks for {asked2[:4]}', None))
+            if not assign:
+                # ... and whatever the file holds for an input no line reads cannot matter either: text that is not a
+                # value of the input's type, for every declared input of the participating forms that was never read
+                from habutax import form as hform, inputs as hi
+                cm = {C.form_name: C for C in fl}
+                junk = {}
+                for sec in r.forms:
+                    fn, inst = hform.name_and_instance(sec)
+                    if fn not in cm:
+                        continue
+                    for i in cm[fn](instance=inst).inputs():
+                        if i.name() not in read and not i.valid('n/a !'):
+                            junk[i.name()] = 'n/a !'
+                if junk:
+                    inputs3 = dict(r.final_inputs)
+                    inputs3.update(junk)
+                    r3 = world.run_solve(fl, base.requested, inputs3, answer=None)
+                    cnt['solves'] += 1
+                    cnt['unread_inputs_given_invalid_text'] = len(junk)
+                    if r3.canon() != r.canon():
+                        viols.append(('unread-input-validated', f'invalid text in {len(junk)} inputs no line reads (e.g. {sorted(junk)[:3]}) changes the outcome: {_diff(r, r3)}', None))
     elif pid == 'C02':
         from hv import c02oracle
         errs, st = c02oracle.check_solution(year, r.solution, inputs=r.final_inputs,
@@ -334,6 +381,53 @@ def _cli_layouts(year, base, r):
     return errs
 
 
+def _cli_argv(year, base, r):
+    """the console entry point with the --year option in every position and spelling: a command line is either rejected
+    with a usage error or solves the year it names, with the result of the in-memory solve of that year"""
+    import os, configparser
+    from hv import cli
+    from habutax.forms import available_forms
+    errs = []
+    n = 0
+    default_year = max(available_forms)
+    with cli.workdir() as d:
+        inp = os.path.join(d, 'in.ini')
+        cli.write_inputs(inp, r.final_inputs)
+        for k, (label, argv) in enumerate(cli.argv_arrangements(year, base.requested, inp, os.path.join(d, 'sol.ini'), default_year)):
+            sol = os.path.join(d, 'sol.ini')
+            if os.path.exists(sol):
+                os.remove(sol)
+            res = cli.main_cli(argv)
+            n += 1
+            if res['exc'] == ('SystemExit', '2') and 'usage:' in res['stderr']:
+                if os.path.exists(sol):
+                    errs.append((f'cli-argv|{label}|rejected-but-wrote', f'{argv[:6]}: usage error, yet a solution file was written'))
+                continue
+            if res['exc'] is not None:
+                if r.exc is None:
+                    errs.append((f'cli-argv|{label}|raised', f'command line {label}: {res["exc"]} where the in-memory solve ends normally'))
+                continue
+            if r.exc is not None:
+                errs.append((f'cli-argv|{label}|not-raised', f'command line {label}: ends normally where the in-memory solve raises {r.exc}'))
+                continue
+            cp = configparser.ConfigParser(interpolation=None)
+            with open(sol) as fh:
+                cp.read_file(fh)
+            got = {sec: dict(cp[sec]) for sec in cp.sections()}
+            stamp = got.pop('habutax', {})
+            if stamp.get('tax_year') != str(year):
+                errs.append((f'cli-argv|{label}|year', f'command line {label} names year {year}; the solution is stamped tax_year={stamp.get("tax_year")!r}'))
+            if got != r.solution:
+                dd = [f'{sec}.{k}: {got.get(sec, {}).get(k)!r} vs {r.solution.get(sec, {}).get(k)!r}'
+                      for sec in sorted(set(got) | set(r.solution)) for k in sorted(set(got.get(sec, {})) | set(r.solution.get(sec, {})))
+                      if got.get(sec, {}).get(k) != r.solution.get(sec, {}).get(k)][:4]
+                errs.append((f'cli-argv|{label}|solution', f'command line {label} for year {year}: solution differs from the in-memory solve of {year}: {dd}'))
+            ok = 'Successfully solved!' in res['stdout']
+            if ok != bool(r.verdict):
+                errs.append((f'cli-argv|{label}|verdict', f'command line {label}: verdict {ok} vs {r.verdict}'))
+    return errs, n
+
+
 def _diff(a, b):
     if a.exc or b.exc:
         return f'{a.exc} vs {b.exc}'
@@ -391,6 +485,8 @@ def c15(year, r):
             errs.append(('1040-balance', f'overpayment {g("34")} - owed {g("37")} != payments {g("33")} - tax {g("24")}'))
         if min(g('34'), g('37')) > 0.0:
             errs.append(('1040-both-positive', f'overpayment {g("34")} and amount owed {g("37")} are both positive'))
+        if g('34') <= 0 and (g('35a') > 0 or g('36') > 0):
+            errs.append(('1040-applied-without-overpayment', f'refund {g("35a")} / applied {g("36")} although nothing is overpaid'))
         if abs(g('35a') + g('36') - g('34')) > 0.005:
             errs.append(('1040-refund-split', f'refund {g("35a")} + applied {g("36")} != overpayment {g("34")}'))
     if 'nc_d-400' in sol:
@@ -410,6 +506,9 @@ def c15(year, r):
                 errs.append(('nc-due-total', f'27 {g("27")} != 26a+26d+26e'))
             if '28' in s and g('28') > 0:
                 errs.append(('nc-both-positive', f'overpayment {g("28")} although tax exceeds payments'))
+            applied = {k: g(k) for k in ('29', '30', '31', '32', '33') if k in s and g(k) > 0}
+            if applied:
+                errs.append(('nc-applied-without-overpayment', f'amounts applied / contributed out of the refund {applied} on a return with tax due (19 {g("19")} > 25 {g("25")})'))
     for sec, kv in sol.items():
         fn = sec.split(':')[0]
         for k in NONNEG.get(fn, ()):
@@ -423,6 +522,9 @@ def c15(year, r):
         if fn == '8606' and '10' in kv and not (0.0 <= float(kv['10']) <= 1.0):
             errs.append(('ratio|8606.10', f'{sec}.10 = {kv["10"]} is not within [0, 1]'))
     return errs
+
+
+SIGNATURE_RE = re.compile(r'positional argument|unexpected keyword argument|missing \d+ required|got multiple values for|object is not callable')
 
 
 # --------------------------------------------------------------------------
@@ -482,6 +584,13 @@ def c16(year, base, assign, r, asked):
         if rr.exc is not None or not rr.verdict:
             errs.append(('renumbering-changes-verdict', f'renumbering {ren}: {rr.outcome_class()}'))
             continue
+        if len(ren) > 3:
+            # many copies: the renumbered return also supplied as a file whose sections stand in the opposite order
+            # (what renaming section headers in place produces)
+            rf = world.run_solve(available_forms[year], base.requested, rr.final_inputs, answer=None, layout='reversed')
+            n += 1
+            if rf.canon() != rr.canon():
+                errs.append(('renumbering-changes-values', f'renumbering {sorted(ren.items())[:3]}.. supplied as a file with the sections in reverse order: {_diff(rr, rf)[:300]}'))
         inv = {v: k for k, v in ren.items()}
         for sec in sorted(set(sol) | set(rr.solution)):
             if sec.split(':')[0] in LISTING:
